@@ -105,7 +105,7 @@ def check(run, replay=None):
     run.assumptions += ["every change of a link status between two matrix updates is made by a control action observed by the change "
                         "tracker (the theorem's hypothesis; checked per traced update by tracker_complete)",
                         "self-loop links are not generated (for a pair (u, u) the code collects every link at u)"]
-    ok, log, fails = common.coq_make(["theories/C09/Proofs.vo", "theories/C09/GraphProofs.vo"])
+    ok, log, fails = common.coq_make(["theories/C09/Proofs.vo", "theories/C09/GraphProofs.vo", "theories/C09/Total.vo"])
     if not ok:
         for f, ln, msg in fails:
             run.tie_broken("proof no longer checks: %s line %s: %s" % (f, ln, common.theorem_line(f, ln)), msg)
